@@ -200,7 +200,9 @@ func TallyCommitCached(cache *SigCache, chainID string, vals *types.ValidatorSet
 	case !SameBlockID(commit.BlockID, blockID):
 		r.Structural = errors.New("commit is for another block id")
 	}
-	counted := map[string]bool{} // by address: "each from a different member"
+	// "each from a different member": a member is identified by its public key
+	// (the address is derived data that a decoded set may carry forged)
+	counted := map[string]bool{}
 	for i, s := range commit.Signatures {
 		if s.BlockIDFlag == FlagAbsent {
 			continue
@@ -218,7 +220,7 @@ func TallyCommitCached(cache *SigCache, chainID string, vals *types.ValidatorSet
 				r.AllNonAbsentValid = false
 				continue
 			}
-			a := string(v.Address)
+			a := v.PubKey.Type() + "/" + string(v.PubKey.Bytes())
 			if !counted[a] {
 				counted[a] = true
 				r.Counted++
